@@ -266,7 +266,7 @@ KEYS_DRV = {'file': 'native/keys_roundtrip.rs', 'attach': 'src/crypto/common.rs'
 PROPS['C18'] = {
     'level': 'proof',
     'level_text': 'Proof (Verus, unbounded lengths) that the text codec is value-exact: base62_add_mult_16, to_base62 and from_base62 verbatim against positional-value specs (text value == big-endian byte value, canonical forms, first bad character), and that Crypto::{decode_key, parse_public_key, parse_private_key, parse_keypair} accept the text of EVERY 32-byte string (also with leading zero bytes) and hand exactly those bytes to the key constructor. ring key objects and PBKDF2 are uninterpreted functions.',
-    'verus': [{'unit': 'base62'}],
+    'verus': [{'unit': 'base62', 'fns': ['(?!lemma_roundtrip_any_body).*']}],
     'native_search': {r'base62::Crypto::.*': KEYS_DRV},
     'trusted': [
         'ring: Ed25519KeyPair::from_seed_unchecked / from_seed_and_public_key as uninterpreted functions of the seed (accept exactly 32-byte seeds; public key is a function of the seed)',
